@@ -512,6 +512,9 @@ impl PtraceDumper {
         }
 
         mapping
+            // The search above may also end on a mapping that cannot be a stack (e.g. the guard
+            // region itself) once the guard distance is exhausted.
+            .filter(|mapping| Self::may_be_stack(Some(mapping)))
             .map(|mapping| {
                 let valid_stack_pointer = if mapping.contains_address(stack_pointer) {
                     stack_pointer
